@@ -80,6 +80,11 @@ def make_drive(d, n):
     elif k == "ripple":       # an almost constant drive: pedestal plus a ripple of 1e-9..1e-4 V
         u = np.full(L, u[0]) + 10 ** rs.uniform(-9, -4) * np.sin(2 * np.pi * rs.uniform(0.01, 0.4) * np.arange(L) + rs.uniform(0, 6))
         k = "ndarray"
+    if k in ("int8", "uint8", "int16"):      # raw DAC codes / integer volts in a narrow integer array, the upper half of the range included
+        dt = np.dtype(k)
+        hi = int(np.iinfo(dt).max)
+        u = rs.randint(hi // 2 - 3, hi + 1, L).astype(dt) if rs.randint(0, 2) else rs.randint(int(np.iinfo(dt).min), hi + 1, L).astype(dt)
+        return u.copy(), u.astype(float)
     if k == "list":
         return u.tolist(), u
     if k == "es":
@@ -89,7 +94,7 @@ def make_drive(d, n):
 
 @st.composite
 def s_mzm(draw):
-    return {"x": draw(s_field()), "u": draw(s_drive(["pyfloat", "pyint", "ndarray", "full", "es", "list", "ripple"])),
+    return {"x": draw(s_field()), "u": draw(s_drive(["pyfloat", "pyint", "ndarray", "full", "es", "list", "ripple", "ndarray", "es", "int8", "uint8", "int16"])),
             "bias": draw(st.floats(-20, 20)), "Vpi": draw(st.floats(0.5, 20)), "loss": draw(st.one_of(st.just(0.0), st.floats(0, 20))),
             "ER": draw(st.one_of(st.floats(0, 60), st.sampled_from([0.0, 60.0, 26.0, 3.0]))), "pol": draw(st.sampled_from(["x", "y"]))}
 
@@ -127,10 +132,12 @@ def e_mzm(c):
             want_n = want_n.copy()
             want_n[off] = 0
     scale = max(float(np.max(np.abs(m.s))), 1e-300)          # relative to the field, no absolute floor
+    # (the argument reduction of cos/sin costs ~1e-16 per radian of |theta|: integer-volt drives reach 1e5 rad)
+    scale = scale * (1 + 1e-3 * float(np.max(np.abs(theta))))
     check(np.allclose(y.signal, want_s, rtol=1e-12, atol=1e-12 * scale), "mzm-signal!=closed-form", f"max err {np.max(np.abs(y.signal - want_s)):.3e}")
     check((y.noise is None) == (m.n is None), "noise-presence", f"input noise {c['x']['noise_kind']}, output noise {'None' if y.noise is None else 'present'}")
     if want_n is not None:
-        check(np.allclose(y.noise, want_n, rtol=1e-12, atol=1e-12 * max(float(np.max(np.abs(m.n))), 1e-300)), "mzm-noise!=closed-form", f"noise kind {c['x']['noise_kind']}")
+        check(np.allclose(y.noise, want_n, rtol=1e-12, atol=1e-12 * max(float(np.max(np.abs(m.n))), 1e-300) * (1 + 1e-3 * float(np.max(np.abs(theta))))), "mzm-noise!=closed-form", f"noise kind {c['x']['noise_kind']}")
     if m.npol == 2:
         off = 1 if pol == "x" else 0
         check(not np.any(y.signal[off]) and (y.noise is None or not np.any(y.noise[off])), "unselected-polarisation-not-extinguished", pol)
@@ -164,6 +171,27 @@ def e_mzm(c):
     g.verify()
     g.no_alias([("MZM.signal", y.signal), ("MZM.noise", y.noise)])
     g.release()
+    # right after a call with drive u: (1) a twin drive with the same length, dtype, first/last sample, sum and energy (interior reversed),
+    # (2) the same drive buffer edited in place - each is modulated by the waveform actually passed
+    if u.ndim == 1 and u.size == N and N >= 4 and c["u"]["kind"] in ("ndarray", "es", "ripple", "int8", "uint8", "int16"):
+        def closed(uv):
+            th = np.pi * (uv + bias) / (2 * Vpi)
+            w_ = m.s * (np.sqrt(L) * (np.cos(th) + 1j * 10 ** (-ER / 20) * np.sin(th)))
+            if m.npol == 2:
+                w_ = w_.copy()
+                w_[1 if pol == "x" else 0] = 0
+            return w_
+        raw = u_arg.signal if isinstance(u_arg, electrical_signal) else u_arg
+        tw = raw.copy()
+        tw[1:-1] = tw[-2:0:-1]
+        lib(D.MZM, x, u_arg, bias, Vpi, loss_dB, ER, pol)
+        yt = lib(D.MZM, x, electrical_signal(tw) if isinstance(u_arg, electrical_signal) else tw, bias, Vpi, loss_dB, ER, pol)
+        check(np.allclose(yt.signal, closed(tw.astype(float)), rtol=1e-12, atol=1e-12 * scale), "mzm-signal!=closed-form", "twin drive (interior reversed) right after the original drive")
+        lib(D.MZM, x, u_arg, bias, Vpi, loss_dB, ER, pol)
+        raw[1], raw[N // 2] = raw[N // 2], raw[1]
+        raw[2] = raw[0]
+        ye = lib(D.MZM, x, u_arg, bias, Vpi, loss_dB, ER, pol)
+        check(np.allclose(ye.signal, closed(raw.astype(float)), rtol=1e-12, atol=1e-12 * scale), "mzm-signal!=closed-form", "drive buffer edited in place between two calls")
     nk = c["x"]["noise_kind"]
     nt = (nk != "none" and (m.npol == 2 or u.ndim == 1)) or ER < 10 or nk == "zero-sum"
     return {"nontrivial": bool(nt), "classes": [f"pol{m.npol}", nk, c["u"]["kind"], c["u"]["rel"], f"sel-{pol}", "ER<10" if ER < 10 else "ER>=10"]}
